@@ -54,6 +54,8 @@ def keyCheck (n : Nat) (f g cF cG : List Int) (h : List Nat) : String :=
     let fn := Ntt.ntt d fq
     if fn.any (· == 0) then "f-not-invertible"
     else if Ntt.hadamard (Ntt.ntt d h) fn ≠ Ntt.ntt d gq then "public-key-relation-fails"
+    else if Ntt.hadamard (Ntt.ntt d h) (Ntt.ntt d (cF.map Zq.new)) ≠ Ntt.ntt d (cG.map Zq.new) then
+      "public-key-relation-FG-fails"
     else if h.any (· ≥ 12289) then "h-not-canonical"
     else "ok"
 
